@@ -148,9 +148,23 @@ func streamLegacy(stream string, r *rng, n int, pfx string) {
 				emit("LMERGE %s %s %s => %s", id, hx(a), hx(b), callLMerge(a, b))
 			case 2:
 				pobs := callLCreate(a, b)
-				emit("LCREATE %s %s %s => %s err:-n", id, hx(a), hx(b), pobs)
+				mobs := "err:-n"
+				if pb, ok := okBytes(pobs); ok {
+					mobs = callLMerge(a, pb)
+				}
+				emit("LCREATE %s %s %s => %s %s", id, hx(a), hx(b), pobs, mobs)
 			case 3:
-				emit("LCOMPOSE %s %s %s %s => %s err:-n err:-n", id, hx(a), hx(b), hx([]byte("{}")), callLMergeMerge(a, b))
+				td := []byte("{}")
+				comb := callLMergeMerge(a, b)
+				seq := "err:-n"
+				if x, ok := okBytes(callLMerge(td, a)); ok {
+					seq = callLMerge(x, b)
+				}
+				app := "err:-n"
+				if x, ok := okBytes(comb); ok {
+					app = callLMerge(td, x)
+				}
+				emit("LCOMPOSE %s %s %s %s => %s %s %s", id, hx(a), hx(b), hx(td), comb, seq, app)
 			default:
 				docs := []string{"null", "[null]", "{\"\":null}", "[[null]]", "{\"a\":[null,{\"\":1}]}", "1", " [1]", "{}", "[]", string(a)}
 				doc := []byte(r.pick(docs))
